@@ -35,6 +35,11 @@ func verifC07World(closed bool) *verifWorld {
 	}
 	for _, p := range a.checklist {
 		p.state = CandidatePairState(verifInt(1, 4))
+		// nomination bookkeeping is arbitrary: only the state validates a pair
+		p.nominated = verifBool()
+		p.nominateOnBindingSuccess = verifBool()
+		p.renominateOnBindingSuccess = verifBool()
+		p.bindingRequestCount = uint16(verifInt(0, 9))
 	}
 	for _, l := range w.locals {
 		l.priorityOverride = 1 + uint32(verifU8())
